@@ -548,7 +548,10 @@ def known_finding_probes():
     """programs that reproduce the family's known findings on every run (so a KNOWN-FINDING line is printed because it was
     observed): KF-WApp-6 — a DHCP option whose payload exceeds what the one-byte length field can express"""
     return ["new", "push DHCP", "set 0 add_option 60 " + "ab" * 256, "show",
-            "new", "push DHCP", "set 0 hostname " + "61" * 300, "show"]
+            "new", "push DHCP", "set 0 hostname " + "61" * 300, "show",
+            # a short hardware address set over a long one: the rest of the 16-byte field is zeroed (KF-C15-11, fixed)
+            "new", "push BootP", "set 0 chaddr " + "c1" * 16, "set 0 chaddr 0a0b0c0d0e0f", "show",
+            "new", "push DHCP", "set 0 chaddr " + "c2" * 16, "set 0 chaddr 0a0b0c0d0e0f", "show"]
 
 
 def dhcp_long_option(case_lines):
